@@ -54,4 +54,10 @@ def json_b64encode(text: Any) -> bytes:
 
 
 def json_b64decode(text: Any) -> Any:
-    return json.loads(urlsafe_b64decode(to_bytes(text, "ascii")))
+    try:
+        data = json.loads(urlsafe_b64decode(to_bytes(text, "ascii")))
+    except RecursionError:
+        raise ValueError("Invalid JSON object")
+    if not isinstance(data, dict):
+        raise ValueError("Invalid JSON object")
+    return data
